@@ -61,6 +61,17 @@ func (d *Dims) RandomFile(rng *rand.Rand, n int, noPointerInput bool) []Reg {
 		if noPointerInput && r.Input == "ptr" {
 			r.Input = "struct"
 		}
+		if noPointerInput && r.Input != "none" && rng.Intn(8) != 0 {
+			// a bound body together with other inputs is the recorded finding of C14: kept rare
+			r.Query, r.Form = []string{}, Form{Values: []string{}}
+		}
+		if noPointerInput { // client universe: every handler name once (a method per endpoint, named after its handler)
+			for _, prev := range regs {
+				if prev.Handler == r.Handler && (r.Handler == "importedfunc" || r.Handler == "importedmethod") && prev.Verb != "Static" {
+					r.Handler = "method"
+				}
+			}
+		}
 		if r.Query == nil {
 			r.Query = []string{}
 		}
